@@ -2,6 +2,9 @@
 """Run the repository's test suite (guard off) and compare with /root/.vp/BASELINE.json stable_pass."""
 import json, subprocess, sys, os
 env = dict(os.environ, GOFLAGS="-mod=mod", GOPROXY="off", GOSUMDB="off", GOTOOLCHAIN="local")
+# private port range for the suite's in-process test servers (other jobs in this sandbox may run the suite too)
+env.setdefault("TEST_BASEPORT", "21900")
+env.setdefault("TEST_BASEPORT_SMTP", "25900")
 base = json.load(open("/root/.vp/BASELINE.json"))
 want = set(base["stable_pass"])
 p = subprocess.run(["go", "test", "-json", "-vet=off", "-count=1", "-timeout", "25m", "./..."], cwd="/repo", env=env, capture_output=True, text=True)
@@ -15,6 +18,9 @@ for line in p.stdout.splitlines():
         passed.add(ev["Package"] + "::" + ev["Test"])
 missing = sorted(want - passed)
 print(f"stable_pass={len(want)} passed_now={len(passed)} missing={len(missing)}")
-for m in missing[:40]:
-    print("  MISSING", m)
+try:
+    for m in missing[:40]:
+        print("  MISSING", m)
+except BrokenPipeError:
+    pass
 sys.exit(1 if missing else 0)
